@@ -90,7 +90,8 @@ class C10(UdpCheck):
                         plan.append({"op": "send", "c": c, "t": round(t + (0 if same_frame else j * 0.01), 4), "len": rng.choice([8, 9, 20, 100, 700, 3000]),
                                      "retry": rng.choice([0, 1, -1]), "cb": False, "api": "send"})
                 elif r < 0.6:
-                    plan.append({"op": "disconnect", "c": c, "t": round(t, 4)})
+                    # (every other one through the blocking waitForDisconnect() convenience call)
+                    plan.append({"op": "disconnect", "c": c, "t": round(t, 4), "wait": int(t * 1000) % 2 == 0})
                     alive = False
                 elif r < 0.75:
                     plan.append({"op": "crash", "c": c, "t": round(t, 4)})
